@@ -11,6 +11,9 @@ _SYMS = {}
 
 def symbol_for(version, seed_):
     """A symbol of the given version (cached per process), content seeded."""
+    if isinstance(version, (list, tuple)) and version[0] == 'empty':
+        qr = symbol_with_empty_row(version[1], seed_)
+        return qr if qr is not None else symbol_for(version[1], seed_)
     key = (version, seed_)
     if key not in _SYMS:
         segno = common.use_repo()
@@ -23,6 +26,25 @@ def symbol_for(version, seed_):
         if e != '-':
             kw['error'] = e
         _SYMS[key] = segno.make(gen.content_for_mode(r, mode, n), **kw)
+    return _SYMS[key]
+
+
+def symbol_with_empty_row(version, seed_):
+    """A symbol of the given version that has a row without any dark module (searching seeded contents); None if not found."""
+    key = ('empty', version, seed_)
+    if key not in _SYMS:
+        segno = common.use_repo()
+        found = None
+        for i in range(400):
+            try:
+                qr = segno.make(str(i * 7 + seed_ % 5) if version == 'M1' else ('SEGNO %d' % (i * 3 + seed_ % 7)), version=version,
+                                **({} if version == 'M1' else {'error': 'L', 'boost_error': False}))
+            except ValueError:
+                continue
+            if any(not any(row) for row in qr.matrix):
+                found = qr
+                break
+        _SYMS[key] = found
     return _SYMS[key]
 
 
@@ -93,8 +115,11 @@ PNG_COLOURS = [({}, 'default'), ({'dark': 'darkblue', 'light': 'yellow'}, 'names
                ({'dark': 'Red', 'light': 'WHITE'}, 'name case'), ({'dark': 'white', 'light': '#fff'}, 'all white'),
                ({'dark': '#000', 'light': (0, 0, 0)}, 'all black'), ({'dark': None, 'light': None}, 'all transparent')]
 PAM_COLOURS = [{}, {'dark': 'darkblue', 'light': 'yellow'}, {'light': None}, {'dark': 'red', 'light': None}, {'dark': '#fff', 'light': '#000'},
-               {'dark': '#640000', 'light': '#000'}, {'dark': (10, 20, 30), 'light': (40, 50, 60)}, {'dark': '#00000080'}, {'dark': 'white', 'light': None}]
-XPM_COLOURS = [{}, {'dark': 'darkblue', 'light': 'yellow'}, {'light': None}, {'dark': '#36c', 'light': (1, 2, 3)}, {'dark': None, 'light': 'white'}]
+               {'dark': '#640000', 'light': '#000'}, {'dark': (10, 20, 30), 'light': (40, 50, 60)}, {'dark': '#00000080'}, {'dark': 'white', 'light': None},
+               {'dark': (128, 128, 128)}, {'light': (238, 238, 238)}, {'dark': '#777', 'light': None}, {'dark': 'gray', 'light': 'silver'},
+               {'dark': (10, 20, 30, 1.0)}, {'dark': (10, 20, 30, 1)}, {'dark': (0, 0, 0, 1)}, {'dark': (0, 0, 0, 1.0)}]
+XPM_COLOURS = [{}, {'dark': 'darkblue', 'light': 'yellow'}, {'light': None}, {'dark': '#36c', 'light': (1, 2, 3)}, {'dark': None, 'light': 'white'},
+               {'dark': (10, 20, 30, 1.0)}, {'dark': 'gray'}]
 PPM_COLOURS = [{}, {'dark': 'darkblue', 'light': 'yellow'}, {'dark': '#36c', 'light': (1, 2, 3)}, {'dark': 'white', 'light': 'black'}]
 
 
@@ -274,7 +299,8 @@ def vector_obs(spec):
 
 
 VEC_COLOURS = [{}, {'dark': 'darkblue', 'light': 'yellow'}, {'dark': '#36c'}, {'light': '#eee'}, {'dark': (10, 20, 30), 'light': (250, 240, 230)},
-               {'dark': 'red', 'light': 'tan'}, {'dark': '#fff', 'light': '#000'}]
+               {'dark': 'red', 'light': 'tan'}, {'dark': '#fff', 'light': '#000'}, {'light': 'white'}, {'light': '#fff'}, {'light': (255, 255, 255)},
+               {'light': '#FFFFFF', 'dark': 'navy'}]
 SVG_OPTS = [{}, {'xmldecl': False}, {'svgns': False}, {'nl': False}, {'omitsize': True}, {'unit': 'mm'}, {'svgversion': 1.1}, {'svgversion': 2.0},
             {'title': 'A <title> & "quotes"', 'desc': "it's <desc> &amp; more"}, {'title': 'Caf&eacute; &nbsp; &#0; AT&T;'}, {'title': ''},
             {'draw_transparent': True}, {'svgclass': None, 'lineclass': None}, {'svgid': 'qr1', 'svgclass': 'a b'},
@@ -313,6 +339,12 @@ def gen_vector(tier, seed_):
     for v in ([7, 20, 40] if tier == 'quick' else list(range(4, 41))):
         for kind in ('svg', 'eps', 'pdf', 'tex'):
             add(kind, v, {'scale': r.choice((1, 2, 0.5))})
+    # symbols that contain a row without dark modules (the line iterator must still advance)
+    for v in ('M1', 1):
+        for kind in ('svg', 'eps', 'pdf', 'tex'):
+            for sc in (1, 2.5):
+                add(kind, ['empty', v], {'scale': sc})
+                add(kind, ['empty', v], {'scale': sc, 'border': 0})
     return specs
 
 
@@ -404,6 +436,10 @@ def gen_typed(tier, seed_):
             cols = r.sample(PALETTE, 13)
             kw = {opt: cols[i % 13] for i, opt in enumerate(TYPE_OPTS)}
             add('typed', kind, v, kw)
+            # options that cross dark and light with only two distinct colours in the image
+            add('typed', kind, v, {'finder_dark': 'white', 'finder_light': 'black'})
+            add('typed', kind, v, {'separator': 'black', 'border': 2})
+            add('typed', kind, v, {'quiet_zone': 'black', 'timing_light': 'black', 'timing_dark': 'white'})
             # the same colour given in different notations for different types
             add('typed', kind, v, {'dark': '#000', 'finder_dark': 'black', 'timing_dark': 'darkred', 'data_dark': (0, 0, 0), 'border': 1})
         # transparency for single types (PNG / SVG)
